@@ -24,6 +24,9 @@ type UFApp struct {
 	Def  *UFDef
 	Args []*Term
 	Res  []*Term
+	// Shapes restricts the application to the argument shapes for which the model is exact
+	// (used only to steer the search for a counterexample)
+	Shapes *Term
 }
 
 var ufDefs = map[string]*UFDef{}
@@ -221,7 +224,29 @@ func (e *Engine) steering(st *State) *Term {
 	return And(cs...)
 }
 
+func (e *Engine) shapeSteering(st *State) *Term {
+	var cs []*Term
+	for _, a := range st.ufApps {
+		if a.Shapes != nil {
+			cs = append(cs, a.Shapes)
+		}
+	}
+	if len(cs) == 0 {
+		return nil
+	}
+	return And(cs...)
+}
+
 func (e *Engine) satRefined(st *State, extra *Term) string {
+	if steer := e.shapeSteering(st); steer != nil {
+		x := steer
+		if extra != nil {
+			x = And(extra, steer)
+		}
+		if r := e.satRefinedRounds(st, x, 6); r == "sat" {
+			return r
+		}
+	}
 	if steer := e.steering(st); steer != nil {
 		x := steer
 		if extra != nil {
